@@ -515,7 +515,7 @@ def run(ctx):
                        "seeded random documents inside the IAM grammar, 1-2 structural mutations of them (wrong shapes, "
                        "duplicated/renamed/unknown/missing keys), decoded, re-encoded and decoded again. Non-trivial: a pattern "
                        "with both matching and non-matching inputs; an accepted document (distinct decoded values).")
-    r = ctx.coq()
+    r = ctx.coq(imports=IMPORTS)
     if not r["ok"]:
         ctx.violation(dict(stage="coq", kind="proof obligation or audit failed", issues=r["issues"]), has_input=False)
     run_match(ctx)
